@@ -354,12 +354,36 @@ Proof.
 Qed.
 Print Assumptions c31_complete_full_refuted.
 
-(* Not proved (planned_not_proved; the "complete-*" classes of the harness check
-   it on every generated stream, 4 <= 2 d + 4 <= maxLate, frames of 1..6 packets):
+(* The statement planned in the first round,
+     forall c fs ops d, stream_ok fs -> delivers d fs ops ->
+       2 * N.of_nat d + 4 <= c_maxLate c -> c_maxLateTs c = 0 -> first_pushed_is_lowest fs ops ->
+       all_frames_emitted fs (snd (run ... (ops ++ OFlush :: repeat OPop (length fs)))),
+   is false as well: maxLate has to cover the frame length, not only the reordering.  A frame of
+   six packets delivered in order (d = 0) with a Pop after every Push and maxLate 4: when
+   filled.count() exceeds maxLate the forced build finds no frame end yet and purgeBuffers
+   drops the frame's first packet. *)
+Theorem c31_complete_long_frame_refuted : exists c fs ops d,
+  stream_ok fk_is_head fk_is_tail fs /\ delivers d fs ops /\
+  2 * N.of_nat d + 4 <= c_maxLate c /\ c_maxLateTs c = 0 /\ first_pushed_is_lowest fs ops /\
+  history_ok ops /\
+  fault (fst (run fk_is_head fk_is_tail fk_unmarshal c (ops ++ OFlush :: repeat OPop (List.length fs)))) = 0 /\
+  ~ all_frames_emitted fs
+      (snd (run fk_is_head fk_is_tail fk_unmarshal c (ops ++ OFlush :: repeat OPop (List.length fs)))).
+Proof.
+  exists (wcfg 4), w_long_frames, w_long_ops, 0%nat.
+  destruct long_frame_witness as (H1 & H2 & H3 & H4 & H5 & H6).
+  split; [exact H1|]. split; [exact H2|]. split; [vm_compute; discriminate|]. split; [reflexivity|].
+  split; [exact H3|]. split; [exact H4|]. split; [exact H5|exact H6].
+Qed.
+Print Assumptions c31_complete_long_frame_refuted.
+
+(* Not proved (planned_not_proved; the "complete-*" classes of the harness check it on every
+   generated stream, 4 <= 2 d + 4 <= maxLate, frames of 1..6 packets, maxLate >= 16):
      c31_complete_partial :
-       forall c fs ops d, stream_ok fs -> delivers d fs ops ->
-         2 * N.of_nat d + 4 <= c_maxLate c -> c_maxLateTs c = 0 ->
-         first_pushed_is_lowest fs ops ->
+       forall c fs ops d len, stream_ok fs -> delivers d fs ops ->
+         Forall (fun f => length f <= len) fs ->
+         N.of_nat (len + d) <= c_maxLate c (as far as tested; 2 d + len + 4 <= maxLate to be safe) ->
+         c_maxLateTs c = 0 -> c_maxLate c <> 1 -> first_pushed_is_lowest fs ops ->
          all_frames_emitted fs (snd (run ... (ops ++ OFlush :: repeat OPop (length fs)))).
    The guard is sufficient as far as tested, not necessary: *)
 Example c31_complete_without_early_pop :
